@@ -15,8 +15,18 @@ def x_obligations(tier):
     o += per_part("C03", "C03-walk", M, "walk", tier, only=None if tier == "thorough" else ["", "h/a/x/v1/", "h/s/q1/v1/o/"])
     o += per_part("C03", "C03-untyped", M, "untyped", tier, only=None if tier == "thorough" else ["", "h/a/x/", "h/s/q1/v1/"])
     o += per_part("C03", "C03-missing", M, "missing_key", tier, only=["", "h/a/"], shrink=1)
+    # the shipped configuration, skeletons with one symbolic character
+    ship = [("hamlet/a/char/", 1, ""), ("hamlet/s/sq01", 1, "/sh0010"), ("hamlet/a/char/x/model/v00", 1, "/w/ma"), ("hamlet/", 1, "")]
+    for pre, n, suf in ship:
+        for fn in ("parent", "walk"):
+            o.append(Obl(f"C03-{fn}[shipped,{pre!r}+{n}+{suf!r}]", M, fn, env={"VF_CONF": "shipped", "VF_PRE": pre, "VF_N": str(n), "VF_SUF": suf}, timeout=170 if tier == "quick" else 600, path_timeout=200,
+                         family="C03-shipped", bound=f"shipped configuration: Sid({pre!r}+c+{suf!r}), c one symbolic character"))
     o.append(Obl("C03-reach", M, "reach", env={"VF_N": "3", "VF_PRE": "h/a/"}, timeout=150, expect="refute", family="C03-twin"))
     return o
+
+
+def z_obligations(tier):
+    return [dict(name=f"C03-prefix[{c}]", module="tplz3.c01z", func="prefix", args={"conf": c}, timeout=300, family="C03-prefix") for c in (("shipped",) if tier == "quick" else ("shipped", "miniA", "miniB"))]
 
 
 META = {
